@@ -349,6 +349,142 @@ class Tr:
             return a, ta
         return f"(if {c} then {a} else {b})", ta
 
+    # ------------------------------------------------------------------ cost semantics: number of integrand calls
+    @staticmethod
+    def plus(*xs):
+        xs = [x for x in xs if x != "0"]
+        if not xs:
+            return "0"
+        if len(xs) == 1:
+            return xs[0]
+        return "(" + " + ".join(xs) + ")%nat"
+
+    def lam_cost(self, clo, cenv, argtys):
+        _, pats, body = clo
+        env = dict(cenv)
+        binders = []
+        for p, t in zip(pats, argtys):
+            b, env = self.bind_pattern(p, t, env)
+            binders.append(b)
+        return "(fun " + " ".join(binders) + " => " + self.cost(body, env) + ")"
+
+    def iter_cost(self, e, env):
+        """cost of driving an iterator expression to the end"""
+        if e[0] == "paren":
+            return self.iter_cost(e[1], env)
+        if e[0] == "mcall":
+            recv, name, args = e[1], e[2], e[3]
+            if name in ("into_par_iter", "into_iter", "iter", "par_iter", "enumerate"):
+                return self.iter_cost(recv, env)
+            if name == "map":
+                x, t = self.ev(recv, env)
+                clo, cenv = self.closure_of(args[0], env)
+                body = self.lam_cost(clo, cenv, [t[1]])
+                inner = self.iter_cost(recv, env)
+                if body.endswith("=> 0)"):
+                    return inner
+                return self.plus(inner, f"(list_sum (map {body} {x}))")
+        if e[0] == "range":
+            return self.plus(self.cost(e[1], env), self.cost(e[2], env))
+        if e[0] == "call" and e[1] == ("path", ["Steps"]):
+            return self.plus(*[self.cost(a, env) for a in e[2]])
+        self.fail("cost of iterator", e)
+
+    def cost(self, e, env):
+        tag = e[0]
+        if tag in ("num", "path", "str", "bool"):
+            return "0"
+        if tag == "paren":
+            return self.cost(e[1], env)
+        if tag == "unary":
+            return self.cost(e[2], env)
+        if tag == "cast":
+            return self.cost(e[1], env)
+        if tag == "bin":
+            return self.plus(self.cost(e[2], env), self.cost(e[3], env))
+        if tag == "tuple":
+            return self.plus(*[self.cost(x, env) for x in e[1]])
+        if tag == "range":
+            return self.plus(self.cost(e[1], env), self.cost(e[2], env))
+        if tag == "mcall":
+            recv, name, args = e[1], e[2], e[3]
+            if name == "sum":
+                return self.iter_cost(recv, env)
+            if name in ("into", "abs", "norm", "is_odd", "is_even"):
+                return self.cost(recv, env)
+            self.fail("cost of method ." + name, e)
+        if tag == "call":
+            f, args = e[1], e[2]
+            name = f[1][-1]
+            if len(f[1]) == 1 and name in env and isinstance(env[name][1], tuple) and env[name][1][0] == "fn":
+                xs = [self.ev(a, env, "S")[0] for a in args]
+                return self.plus(*([self.cost(a, env) for a in args] + ["(" + env[name][0] + "_calls " + " ".join(xs) + ")"]))
+            if f[1] == ["Steps"]:
+                return self.plus(*[self.cost(a, env) for a in args])
+            if len(f[1]) == 1 and name in self.sigs:
+                ptys, _ = self.sigs[name]
+                out, pre = [], []
+                if not any(isinstance(pt, tuple) and pt[0] == "fn" for pt in ptys):
+                    return self.plus(*[self.cost(a, env) for a in args])
+                for a, pt in zip(args, ptys):
+                    if isinstance(pt, tuple) and pt[0] == "fn":
+                        clo, cenv = self.closure_of(a, env)
+                        if clo is not None:
+                            out.append(self.lam(clo, cenv, ["S"] * pt[1])[0])
+                            out.append(self.lam_cost(clo, cenv, ["S"] * pt[1]))
+                        else:
+                            x, _ = self.ev(a, env)
+                            out.append(x)
+                            out.append(x + "_calls")
+                        continue
+                    if pt == "N":
+                        if self.fuel_var and a == ("bin", "-", ("path", [self.fuel_var[0]]), ("num", "1", None)):
+                            out.append(self.fuel_var[1])
+                        else:
+                            out.append(self.ev(a, env)[0])
+                        continue
+                    pre.append(self.cost(a, env))
+                    out.append(self.ev(a, env, pt if pt in ("S", "Z") else None)[0])
+                return self.plus(*(pre + ["(" + name + "_calls " + " ".join(out) + ")"]))
+            self.fail("cost of call", e)
+        if tag == "if":
+            c, _ = self.ev(e[1], env)
+            a = self.cost(e[2], env)
+            b = self.cost(e[3], env)
+            if a == b:
+                return self.plus(self.cost(e[1], env), a)
+            return self.plus(self.cost(e[1], env), f"(if {c} then {a} else {b})")
+        if tag == "block":
+            return self.cstmts(list(e[1]), e[2], env)
+        if tag == "return":
+            return self.cost(e[1], env)
+        self.fail("cost of expression form " + tag, e)
+
+    def cstmts(self, sts, tail, env):
+        if not sts:
+            return self.cost(tail, env)
+        st, rest = sts[0], sts[1:]
+        if st[0] == "expr" and st[1][0] == "macro" and st[1][1] in ("assert", "debug_assert"):
+            return self.cstmts(rest, tail, env)
+        er = self.early_return(st)
+        if er is not None:
+            c, _ = self.ev(er[0], env)
+            return self.plus(self.cost(er[0], env), f"(if {c} then {self.cost(er[1], env)} else {self.cstmts(rest, tail, env)})")
+        if st[0] == "let":
+            pat, val = st[1], st[3]
+            if val[0] == "closure":
+                env2 = dict(env)
+                env2[pat[1]] = ("__closure__", val, dict(env))
+                return self.cstmts(rest, tail, env2)
+            x, t = self.ev(val, env)
+            b, env2 = self.bind_pattern(pat, t, env)
+            r = self.cstmts(rest, tail, env2)
+            cv = self.cost(val, env)
+            if r == "0":
+                return cv
+            return self.plus(cv, f"(let {b} := {x} in\n   {r})")
+        self.fail("cost of statement form " + st[0], st)
+
     # ------------------------------------------------------------------ blocks
     def block(self, blk, env, want=None):
         if blk[0] != "block":
@@ -475,7 +611,7 @@ def coq_type(t):
     raise ValueError(t)
 
 
-def translate_fn(tr, it, out_lines, accepts=False):
+def translate_fn(tr, it, out_lines, accepts=False, calls=False):
     tr.cur = it.name
     ptys = param_types(it)
     rty = ret_type(it)
@@ -521,6 +657,37 @@ def translate_fn(tr, it, out_lines, accepts=False):
         if t != rty:
             raise Untranslatable(it.file, it.span[0], f"{it.name}: result type {t} vs {rty}")
         out_lines.append(f"Definition {it.name} {binders} : {coq_type(rty)} :=\n  {txt}.\n")
+    if calls:
+        cbinders = []
+        for n, t in ptys:
+            cbinders.append(f"({tr.cname(n)} : {coq_type(t)})")
+            if isinstance(t, tuple) and t[0] == "fn":
+                cbinders.append(f"({tr.cname(n)}_calls : {' -> '.join(['Sc O'] * t[1] + ['nat'])})")
+        cb = " ".join(cbinders)
+        saved_guards, tr.guards = tr.guards, None
+        if recursive:
+            p = fuel[0]
+            sts = list(body[1])
+            er = tr.early_return(sts[0])
+            others = [d for d in split_or(er[0]) if d != ("bin", "==", ("path", [p]), ("num", "0", None))]
+            pred = p + "'"
+            tr.fuel_var = (p, pred)
+            env_s = dict(env)
+            del env_s[p]
+            rest_c = tr.cstmts(sts[1:], body[2], env_s)
+            x0c = tr.cost(er[1], env)
+            if others:
+                c, _ = tr.ev(join_or(others), env_s)
+                rest_c = tr.plus(tr.cost(join_or(others), env_s), f"(if {c} then {x0c} else\n   {rest_c})")
+            out_lines.append(f"(* number of integrand calls made by [{it.name}] *)\n"
+                             f"Fixpoint {it.name}_calls {cb} {{struct {p}}} : nat :=\n"
+                             f"  match {p} with\n  | 0%nat => {x0c}\n  | S {pred} =>\n   {rest_c}\n  end.\n")
+            tr.fuel_var = None
+        else:
+            ctxt = tr.cstmts(list(body[1]), body[2], env)
+            out_lines.append(f"(* number of integrand calls made by [{it.name}] *)\n"
+                             f"Definition {it.name}_calls {cb} : nat :=\n  {ctxt}.\n")
+        tr.guards = saved_guards
     if accepts:
         # program-order conjunction of usize-underflow guards and asserts, with the lets they depend on
         zparams = " ".join(f"({tr.cname(n)} : Z)" for n, t in ptys if t == "Z")
@@ -642,7 +809,7 @@ def gen_integration(repo, out):
                       ("quad_asr", False), ("simpson_adaptive", False), ("simpson_adaptive_2d", False)):
         it = find1(items, name)
         out.span("integration:" + name, it)
-        translate_fn(tr, it, lines, accepts=acc)
+        translate_fn(tr, it, lines, accepts=acc, calls=(name != "get_simpson_weight"))
     # dispatch: the Simpson arms of Integrator::integrate / integrate2d
     for nm, dim in (("integrate", 1), ("integrate2d", 2)):
         it = find1(items, nm, "Integrator")
